@@ -3,7 +3,7 @@
    arithmetic are proved for EVERY instance (E, LW) of the EdLaws record (Model/EdClass.v): the group laws are
    hypotheses of the statement, hence the suffix `_partial`.
    This file contains only statements (pinned by Check), `exact` proofs and assumption audits. *)
-From MRS Require Import Proofs.KeysProofs Proofs.EdInstProofs.
+From MRS Require Import Proofs.KeysProofs Proofs.EdInstProofs Proofs.EdToy.
 Open Scope Z_scope.
 
 (* ---- secret keys -------------------------------------------------------------------------------------------- *)
@@ -111,6 +111,11 @@ Theorem C13_public_canonical_range : forall k, @pk_from_slice ed25519_ops k = Ok
     le2z k mod 2 ^ 255 = y /\ (x = 0 -> le2z k < 2 ^ 255).
 Proof. exact inst_accepted_canonical. Qed.
 
+(* the hypotheses of the _partial theorems are satisfiable (the cyclic group Z/l is an instance), so none of them is
+   vacuous; this says nothing about Ed25519 itself *)
+Theorem C13_laws_satisfiable : exists E : EdOps, EdLaws E /\ @smul E 1 G <> @smul E 0 G.
+Proof. exists toy_ops. split; [exact toy_laws|exact toy_nontrivial]. Qed.
+
 (* non-vacuity / sanity on the concrete arithmetic (curve known-answer tests are in Proofs/EdKAT.v) *)
 Example C13_ex_l_minus_1 : sk_from_slice (sk_to_bytes (ell - 1)) = Ok (ell - 1) /\ sk_from_slice (sk_to_bytes ell) = Err EBad.
 Proof. split; vm_compute; reflexivity. Qed.
@@ -166,6 +171,7 @@ Check C13_public_canonical_range : forall k, @pk_from_slice ed25519_ops k = Ok k
     let x := fst (Ed25519.affine P) in let y := snd (Ed25519.affine P) in
     0 <= x < Ed25519.fp /\ 0 <= y < Ed25519.fp /\ le2z k = y + (x mod 2) * 2 ^ 255 /\
     le2z k mod 2 ^ 255 = y /\ (x = 0 -> le2z k < 2 ^ 255).
+Check C13_laws_satisfiable : exists E : EdOps, EdLaws E /\ @smul E 1 G <> @smul E 0 G.
 
 Print Assumptions C13_secret.
 Print Assumptions C13_secret_roundtrip.
@@ -184,3 +190,4 @@ Print Assumptions C13_add_sub_partial.
 Print Assumptions C13_closed_partial.
 Print Assumptions C13_panic_only_if_undecodable.
 Print Assumptions C13_public_canonical_range.
+Print Assumptions C13_laws_satisfiable.
